@@ -179,6 +179,8 @@ def r_respawn_guard(e, R):
             return "E"
         if isinstance(x, ast.Name) and _is_weakref_deref(e, f, x):
             return "E"
+        if isinstance(x, ast.Attribute) and set(e.pt.ev(f, x.value)) & a.flags_objs:
+            return {"shutdown": "S", "broken": "B", "kill_workers": "K"}.get(x.attr)
         return None
     if outer is not None:
         expr = inline_locals(e, f, outer.test)
@@ -186,7 +188,7 @@ def r_respawn_guard(e, R):
         dom = list(range(0, K + 3))
         try:
             names, tab, bad = guards.compare(
-                expr, {"NP": dom, "NR": dom, "P": dom, "E": ["executor"], "M": [1, 2, 3]}, classify,
+                expr, {"NP": dom, "NR": dom, "P": dom, "E": ["executor"], "M": [1, 2, 3], "S": [False, True], "B": [None], "K": [False]}, classify,
                 lambda env: True if (env["NP"] > 0 and env["P"] == 0) else None,
                 constraint=lambda env: env["NR"] <= env["NP"])
         except KeyError as ex:
@@ -194,7 +196,7 @@ def r_respawn_guard(e, R):
         R.info["respawn_guard_rows"] = len(tab)
         for env, got, want in bad[:1]:
             R.fail("R-RESPAWN-GUARD", f.short, norm(outer.test),
-                   f"the respawn guard is false for pending={env['NP']}, running={env['NR']}, workers={env['P']}: work is "
+                   f"the respawn guard is false for pending={env['NP']}, running={env['NR']}, workers={env['P']}, shutdown={env['S']}: work is "
                    "outstanding and nobody is left to take it, yet no worker is re-spawned", e.loc(f, outer.test),
                    instance=f"{f.short}: guard rows with pending>0 and no worker")
         if not bad:
@@ -206,14 +208,15 @@ def r_respawn_guard(e, R):
         expr = inline_locals(e, f, inner.test)
         try:
             names, tab, bad = guards.compare(
-                expr, {"P": [0, 1, 2, 3], "M": [1, 2, 3], "E": ["executor"], "NP": [1], "NR": [0]}, classify,
+                expr, {"P": [0, 1, 2, 3], "M": [1, 2, 3], "E": ["executor"], "NP": [1], "NR": [0], "S": [False, True], "B": [None], "K": [False]}, classify,
                 lambda env: True if env["P"] == 0 else (False if env["P"] >= env["M"] else None))
         except KeyError as ex:
             raise AnalysisError(f"respawn inner guard: atom {ex} missing")
         for env, got, want in bad[:1]:
             R.fail("R-RESPAWN-GUARD", f.short, norm(inner.test),
-                   f"inner respawn condition is {got} for workers={env['P']}, max_workers={env['M']} (must be {want}): "
-                   "either no respawn although the pool is empty, or a spawn beyond max_workers", e.loc(f, inner.test))
+                   f"inner respawn condition is {got} for workers={env['P']}, max_workers={env['M']}, shutdown={env['S']} (must be {want}): "
+                   "either no respawn although the pool is empty and work is pending (a graceful shutdown must still drain submitted work), "
+                   "or a spawn beyond max_workers", e.loc(f, inner.test))
         if not bad:
             R.ok("R-RESPAWN-GUARD", f"{f.short}: inner condition `{norm(inner.test)[:60]}` = pool below max_workers", e.loc(f, inner.test))
     # the respawn happens under the management lock
@@ -318,6 +321,14 @@ def r_spawn_site(e, R):
     esc = sg.escape_path(sg.entry, lambda x: x in sp, use_exc=False)
     R.check(esc is None and bool(sp), "R-SPAWN-SITE", "submit: every accepting path reaches the pool top-up", sub.short, "_ensure_executor_running()",
             "submit can accept a task without topping the pool back up to max_workers", e.loc(sub, sub.node))
+    # the top-up follows the registration of the work item: a worker that leaves after the top-up is then covered by
+    # the manager's respawn guard (pending > 0); the other order strands the task when every worker idles out in between
+    ins = [n for n in sg.nodes if n.kind == "stmt" and n.ast is not None and any(
+        isinstance(x, ast.Subscript) and isinstance(x.ctx, ast.Store) and e.objs(sub, x.value) & a.pending for x in _walk_noscope(n.ast))]
+    R.check(bool(ins) and bool(sp) and all(any(sg.dominates(i, s_) for i in ins) for s_ in sp), "R-SPAWN-SITE",
+            "submit: the work item is registered before the pool is topped up", sub.short, "pending[...] = w before _ensure_executor_running()",
+            "submit tops the pool up before registering the work item: if the workers idle out in between (short timeout), the manager's "
+            "respawn guard sees no pending work, nobody re-spawns and the task never runs", e.loc(sub, sp and next(iter(sp)).ast))
     # the top-up condition in the ensure-running helper must not skip the spawn when the pool is short
     for q in e.reach([sub.qualname]):
         hf = e.prog.funcs[q]
